@@ -7,6 +7,14 @@
 package sel
 
 import (
+	"context"
+
+	"github.com/ipfs/go-cid"
+	"github.com/libp2p/go-libp2p/core/peer"
+
+	"github.com/ipfs/go-graphsync"
+	gsmsg "github.com/ipfs/go-graphsync/message"
+	"github.com/ipfs/go-graphsync/responsemanager/hooks"
 	"github.com/ipld/go-ipld-prime/datamodel"
 	"github.com/ipld/go-ipld-prime/node/basicnode"
 	"github.com/ipld/go-ipld-prime/traversal/selector"
@@ -132,6 +140,13 @@ func VerifSel_Validate() {
 	verifrt.Assume(perr == nil)
 	err := selectorvalidator.ValidateMaxRecursionDepth(node, g.max)
 	verifrt.Eventf("recursions=%d underIA=%v", g.nrec, g.underIA)
+	// the same verdict through the default hook, registered the way impl.New
+	// registers it, and the real incoming-request hook registry
+	rh := hooks.NewRequestHooks(nil)
+	rh.Register(selectorvalidator.SelectorValidator(g.max))
+	req := gsmsg.NewRequest(graphsync.RequestID{}, cid.Undef, node, 0)
+	res := rh.ProcessRequestHooks(peer.ID("p"), req, context.Background())
+	verifrt.Assert(res.IsValidated == (err == nil) && res.Err == nil, "C08 the default request hook does not validate exactly the selectors ValidateMaxRecursionDepth accepts")
 	if g.allOK {
 		verifrt.Assert(err == nil, "C08 selector whose recursions are all limited to <= 100 was rejected")
 		verifrt.Cover("accepted")
